@@ -26,6 +26,11 @@ CLAIMED["C04"] = dict(
     note="Trusts the reference model and the guarded dispatcher override. Montgomery ladder and Ristretto wrappers are covered under C07/C06 and added to this check's stream as they are built.",
     technique="property-based testing (proptest) against a reference model; forced run-time dispatch; validity-predicate oracle for recoders",
     design="3/C04")
+CLAIMED["C12"] = dict(
+    text="Complete enumeration (no sampling) in nine builds: every entry of every shipped table (radix-16 basepoint table incl. the transmuted Ristretto view, serial affine odd multiples, AVX2 and IFMA cached odd multiples) read out raw through the hook and compared with the model's multiple of the basepoint; every internal field constant against its defining equation; L, R, RR, LFACTOR; P_TIMES_2/16 and vector identities; the public constants of the three crates; and, independently through the public API only, one fixed-base multiplication per basepoint-table entry and one double-base multiplication per odd-multiples entry under every forced dispatch. Evidence exhaustive=true.",
+    note="Trusts the reference model (its constants are themselves checked against defining equations in the self-test) and the hook read-out wrappers.",
+    technique="exhaustive enumeration of a finite space against a reference model (generated scalars select each table entry through the public API)",
+    design="3/C12")
 
 ALL = ["C%02d" % i for i in range(1, 18)]
 REASON_PENDING = "check not built yet (see DESIGN.md build order); not claimed"
